@@ -41,6 +41,7 @@ type Case struct {
 	Types   []int    `json:"types"` // indices into busmodel.Types
 	Ops     []Op     `json:"ops"`
 	Scripts []Script `json:"scripts,omitempty"`
+	Ambient int      `json:"ambient,omitempty"` // busmodel.Ambient bits: configuration that must not change the outcome
 }
 
 type hkey struct {
@@ -418,7 +419,7 @@ func fmtRecs(rs []Rec) string {
 // Run executes the case against a fresh bus and the model.
 func Run(c *Case) (Result, []*vkit.Violation) {
 	m := newModel(c)
-	e := &env{c: c, bus: eventbus.New(), mainG: vkit.Goid(), ran: map[hkey]bool{}, scripts: m.scripts, seqKeys: m.seqKeys}
+	e := &env{c: c, bus: eventbus.New(busmodel.Ambient(c.Ambient)...), mainG: vkit.Goid(), ran: map[hkey]bool{}, scripts: m.scripts, seqKeys: m.seqKeys}
 	for i, o := range c.Ops {
 		path := fmt.Sprintf("op%d", i)
 		m.exp = &expectation{query: map[string]queryRes{}, skip: map[string]bool{}}
